@@ -881,3 +881,41 @@ pub fn c12_structure(seeds: u64) -> i32 {
         }
     }
 }
+
+// ---------------------------------------------------------------------------------------------
+// C11 / U-SIMILAR: similar_type_paths_in_registry on a catalogue of registries x queries; the expected list is computed here,
+// independently: the registry paths (non-empty) whose last segment equals the query's last identifier, in registry order.
+pub fn c11_similar() -> i32 {
+    use quote::ToTokens;
+    use scale_typegen::typegen::validation::similar_type_paths_in_registry;
+    use TypeDefPrimitive as P;
+    let mk = |paths: &[&str]| registry(paths.iter().map(|p| ty(p, vec![], prim(P::U8))).collect());
+    let regs: Vec<(&str, Vec<&str>)> = vec![
+        ("empty", vec![]),
+        ("path-less only", vec!["", "", ""]),
+        ("mixed", vec!["a::S", "", "b::c::S", "S", "a::T", "x::MyS", "x::Sx", "", "a::S", "a::S", "d::S", "RawEvent", "e::Event", "Event"]),
+        ("longer first", vec!["a::b::c::S", "a::S", "S", "a::b::S"]),
+        ("duplicates adjacent", vec!["w::Wrapper", "w::Wrapper", "w::Other", "w::Wrapper"]),
+        ("single segments", vec!["S", "T", "S", "", "Ss"]),
+        ("prefix and suffix of the query", vec!["a::b", "a::b::S", "b::S", "a::b::S::x", "S::a::b"]),
+    ];
+    let queries = ["S", "a::S", "a::b::S", "::a::b::S", "T", "Event", "Wrapper", "w::Wrapper", "x::y::z::Ss", "a::Foo<u8>", "S<T>", "b", "x"];
+    let mut tried = 0;
+    let mut found = None;
+    'o: for (name, paths) in regs.iter() {
+        let reg = mk(paths);
+        for q in queries.iter() {
+            tried += 1;
+            let qp: syn::Path = syn::parse_str(q).unwrap();
+            let last = qp.segments.last().unwrap().ident.to_string();
+            let expected: Vec<String> = paths.iter().filter(|p| !p.is_empty() && p.split("::").last() == Some(last.as_str())).map(|p| p.split("::").collect::<Vec<_>>().join(" :: ")).collect();
+            let got = panic::catch_unwind(|| similar_type_paths_in_registry(&reg, &qp).iter().map(|p| p.to_token_stream().to_string()).collect::<Vec<_>>());
+            match got {
+                Err(_) => { found = Some((format!("registry '{name}' {paths:?}, query {q}"), "panic".to_string())); break 'o; }
+                Ok(g) if g != expected => { found = Some((format!("registry '{name}' {paths:?}, query {q}"), format!("returned {g:?}, expected {expected:?}"))); break 'o; }
+                _ => {}
+            }
+        }
+    }
+    report(found, tried)
+}
